@@ -260,6 +260,23 @@ def do_op(t, P, cl, grp, op, x, y, vx, is_set, kk, vv):
                         leafc()._p_resolveConflict((old,), (com,), (new,))
                     except Exception:       # noqa: refusal or unordered state, both fine here
                         pass
+                    # the same three states on a leaf that has a successor in the leaf chain: the merge result names
+                    # the successor, whose reference count must come back to where it was
+                    nxt = leafc()
+                    (nxt.add(vx) if is_set else nxt.__setitem__(vx, vx))
+                    keep = [nxt] * 8        # a lost reference must not free it under our feet
+                    r_ = sys.getrefcount(nxt)
+                    for _ in range(2):
+                        try:
+                            leafc()._p_resolveConflict((old, nxt), (com, nxt), (new, nxt))
+                        except Exception:       # noqa
+                            pass
+                    keys_mod._MEMO.clear()
+                    gc.collect()
+                    if sys.getrefcount(nxt) != r_:
+                        fail('conflict resolution changed the reference count of the successor leaf (%d)' % (sys.getrefcount(nxt) - r_),
+                             {'harness': 'ref_step', 'kind': kind, 'group': grp, 'op': op, 'phase': 'merge_next'})
+                    del keep, nxt
             else:
                 t._check()
             return False
